@@ -1,3 +1,4 @@
+import Mixin.Facts.ExpectedC23
 import Mixin.Model.CacheQueue
 /-!
 # C23 — only queueing makes a cached transaction eligible for proposal
